@@ -181,6 +181,8 @@ class RefServer(object):
                 if self.close_after == 'request':
                     self.close()
                     return
+                if self.status_cfg.get('silent'):
+                    return              # reads the request, never answers
                 body = self.status_cfg.get('json')
                 self.send('status.response', codec.string(body), pid=0)
                 if self.close_after == 'response':
